@@ -58,12 +58,14 @@ FLOORS = {
     "quick": {"evaluations": 1000, "distinct_nontrivial": 1000,
               "counters": {"copies_made": 2800, "held_pair_checks": 38000, "separate_lock_checks": 7000, "free_checks": 18000,
                            "copies_made_while_held": 120, "thread_cases": 150, "critical_sections": 150000,
-                           "handovers": 20000, "max_occupancy_checks": 300},
+                           "handovers": 20000, "max_occupancy_checks": 300,
+                           "lifetime_pair_checks": 2600, "lifetime_pair_checks_after_first_member_dropped": 1200},
               "sets": {"interleavings": 150}},
     "thorough": {"evaluations": 6000, "distinct_nontrivial": 6000,
                  "counters": {"copies_made": 7000, "held_pair_checks": 100000, "separate_lock_checks": 18000, "free_checks": 47000,
                               "copies_made_while_held": 3000, "thread_cases": 3000, "critical_sections": 3000000,
-                              "handovers": 500000, "max_occupancy_checks": 8000},
+                              "handovers": 500000, "max_occupancy_checks": 8000,
+                              "lifetime_pair_checks": 39000, "lifetime_pair_checks_after_first_member_dropped": 18000},
                  "sets": {"interleavings": 3000}},
 }
 EXHAUSTIVE_SPACE = ("deterministic pairwise exclusion checks for every combination of 13 token kinds x 10 copy methods x "
@@ -162,6 +164,11 @@ def cases(tier, seed):
                "methods": [rng.choice(METHODS) for _ in range(rng.randint(1, 3))],
                "topo": rng.choice(("chain", "star", "tree", "same-bytes")), "ncopies": rng.randint(1, 6),
                "while_held": rng.random() < 0.5, "tseed": rng.randrange(2 ** 31)}
+    # ---- lifetimes: members (the original included) are dropped and collected between copies --------------------
+    k = 400 if tier == "quick" else 6000
+    for _ in range(k):
+        yield {"kind": "lifetimes", "token": rng.choice(TOKEN_KINDS), "methods": [rng.choice(METHODS) for _ in range(3)],
+               "steps": rng.randint(3, 9), "tseed": rng.randrange(2 ** 31), "topo": "tree", "ncopies": 0}
     # ---- thread workloads ---------------------------------------------------------
     k = 320 if tier == "quick" else 9000
     for _ in range(k):
@@ -480,9 +487,69 @@ def _threads(case, ctx):
                   "first_entries": g1.entries[:16]}
 
 
+def _lifetimes(case, ctx):
+    """Copies made from survivors after earlier members - the first-created one included - were dropped and collected:
+    every live member still has to exclude every other live member (a copy of a copy is a copy of the original)."""
+    import gc
+
+    from dask.utils import SerializableLock
+
+    rng = random.Random(case["tseed"])
+    feat = _feat(case)
+    kind = case["token"]
+    tok = _token(kind)
+    live = [SerializableLock(tok) if kind != "generated" else SerializableLock()]
+    born = [0]                      # creation rank of every live member (0 = the first object created for the token)
+    nxt, dropped_first = 1, False
+    ctx.nontrivial = True
+    for step in range(case["steps"]):
+        if len(live) >= 2 and rng.random() < 0.45:
+            i = 0 if (not dropped_first and rng.random() < 0.5) else rng.randrange(len(live))
+            if born[i] == 0:
+                dropped_first = True
+            del live[i], born[i]
+            gc.collect()
+            ctx.count("members_dropped")
+        else:
+            parent = rng.choice(live)
+            try:
+                live.append(_roundtrip(parent, rng.choice(case["methods"])))
+            except Exception as e:  # noqa: BLE001
+                ctx.exception(e, prefix="roundtrip:" + feat)
+                return
+            del parent
+            born.append(nxt)
+            nxt += 1
+            ctx.count("copies_made")
+        if len(live) < 2:
+            continue
+        holder = rng.randrange(len(live))
+        x = live[holder]
+        if not x.acquire(False):
+            ctx.violation("free-lock:%s:nonblocking-acquire-failed" % feat, "live member could not be acquired although nothing holds the group")
+            return
+        try:
+            for j, y in enumerate(live):
+                ctx.count("held_pair_checks")
+                ctx.count("lifetime_pair_checks")
+                if dropped_first:
+                    ctx.count("lifetime_pair_checks_after_first_member_dropped")
+                if y.acquire(False):
+                    y.release()
+                    ctx.violation("exclusion:%s&earlier-member-collected:nonblocking-acquire-succeeded-while-held" % feat,
+                                  "after dropping members (first-created dropped: %s) member born #%d acquired while member born #%d "
+                                  "of the same identity group is held; tokens %r / %r" % (dropped_first, born[j], born[holder], y.token, x.token))
+                    return
+        finally:
+            x.release()
+    ctx.sample = {"steps": case["steps"], "live_at_end": len(live), "first_member_dropped": dropped_first}
+
+
 def run_case(case, ctx):
     if case["kind"] == "pairwise":
         _pairwise(case, ctx)
+    elif case["kind"] == "lifetimes":
+        _lifetimes(case, ctx)
     else:
         _threads(case, ctx)
 
